@@ -131,6 +131,24 @@ PROPS = {
         trusted=S_COMMON + ["model: pyannote Segment.duration", "closure semantics: captured names are declared and checked against the "
                             "free variables of the closure body"],
     ),
+    "C12": dict(
+        functions=[AL + "Alignment.gamma_k_disorder", AL + "Alignment.gamma_k_disorder#not-combined", AL + "UnitaryAlignment.nb_units",
+                   AL + "UnitaryAlignment.n_tuple", AL + "Alignment.__iter__", DS + "PositionalSporadicDissimilarity.d",
+                   DS + "AbsoluteCategoricalDissimilarity.d"],
+        oracles=[CT + "GammaResults.gamma_k"],
+        bounded=[dict(oracle=CT + "GammaResults.gamma_k",
+                      what="GammaResults.gamma_cat / gamma_k (thread-pool jobs) are not under contract yet: best / soft alignments and full gamma "
+                           "computations (3 chance samples) on random grid continua, categories present and absent, every combined parameter set: "
+                           "disorder against the definition, gamma-cat / gamma-k == 1 - observed/mean chance, <= 1, == 1 on identical annotators; "
+                           "TypeError for a non-combined dissimilarity")],
+        design_ref="DESIGN.md section 4 C12, appendix A.4",
+        not_decided=["whether the weighting should use alpha (the statement says it does)",
+                     "corner cases taken from the code: no counted pair at all -> 1.0, only unit/empty pairs -> 0.0 (flagged from-code)",
+                     "gamma_cat / gamma_k themselves (1 - observed/expected over the thread pool): bounded only"],
+        trusted=S_COMMON + ["interface contract of the abstract CategoricalDissimilarity.d (value depends on the two category names, >= 0): "
+                            "assumed for the abstract method, proved for AbsoluteCategoricalDissimilarity.d",
+                            "model: python list slicing / enumerate / filter / generator-expression sum"],
+    ),
     "C07": dict(
         functions=[NU + "iter_tuples", NU + "extend_right_alignments", NU + "extend_right_disorders",
                    DS + "AbstractDissimilarity._get_all_valid_alignments"],
